@@ -107,7 +107,7 @@ def obligations(tier):
 
 MANIFEST = {
     "text": "Registry: for every id value and name-equality pattern, adding one entry of any kind to a parser holding up to two entries raises the corresponding error iff there is a collision or a range violation, and otherwise registers exactly that entry. "
-            "Closure: over import graphs of a root and three files (diamonds, chains, a cycle, repeated imports) with two items placed anywhere, the real parse() reports a conflict iff both items are reachable and collide, reads every reachable file exactly once and restores the working directory. CrossHair exhausts each shard.",
+            "Closure: over import graphs of a root and three files (diamonds, chains, a cycle, repeated imports) with two items placed anywhere, the real parse() reports a conflict iff both items are reachable and collide, reads every reachable file exactly once and restores the working directory - with files in one directory or spread over directories of different depth, both import-list orders, and (core definitions imported first, ids over all ints, one file named core_defs.yaml) the id range rules. CrossHair exhausts each shard.",
     "note": "YAML loader stubbed (dictionaries per file); names via 3-name pool; logging off",
     "design_ref": "DESIGN.md 4.12",
 }
